@@ -71,6 +71,38 @@ class Verdict(object):
         return "Verdict(%s %s %s)" % (self.status, self.bucket or self.finding or "", self.what[:200])
 
 
+class CaseTimeout(BaseException):
+    pass
+
+
+def guarded(seconds=30):
+    """Decorator for check_case: a per-case watchdog.  A timeout is *inconclusive*, never a violation
+    (a time budget is not a correctness oracle; termination is C03's subject)."""
+    import functools
+    import signal
+    import threading
+
+    def deco(fn):
+        @functools.wraps(fn)
+        def wrapper(case, *a, **k):
+            if threading.current_thread() is not threading.main_thread():
+                return fn(case, *a, **k)
+
+            def _h(signum, frame):
+                raise CaseTimeout()
+            old = signal.signal(signal.SIGALRM, _h)
+            signal.alarm(seconds)
+            try:
+                return fn(case, *a, **k)
+            except CaseTimeout:
+                return Verdict("inconclusive", "watchdog after %ds" % seconds)
+            finally:
+                signal.alarm(0)
+                signal.signal(signal.SIGALRM, old)
+        return wrapper
+    return deco
+
+
 def sig64(*parts):
     h = hashlib.blake2b(digest_size=8)
     for p in parts:
@@ -379,7 +411,10 @@ def shard_seed(seed, pid, k):
 def _worker(args):
     modname, desc, seed, tier = args
     try:
+        import faulthandler
         import importlib
+        import signal
+        faulthandler.register(signal.SIGUSR1, all_threads=True)   # kill -USR1 <worker> dumps its stack
         import_target()
         mod = importlib.import_module(modname)
         t0 = time.time()
